@@ -117,7 +117,19 @@ where
     debug_assert!(xs.len() == ys.len(), "number of X and Y coordinates must be the same");
 
     let roots = poly_from_roots(xs);
-    let numerators: Vec<Vec<E>> = xs.iter().map(|&x| syn_div(&roots, 1, x)).collect();
+    let numerators: Vec<Vec<E>> = xs
+        .iter()
+        .map(|&x| {
+            if x == E::ZERO {
+                // synthetic division does not accept a zero constant: dividing by x is a shift
+                let mut numerator = roots[1..].to_vec();
+                numerator.push(E::ZERO);
+                numerator
+            } else {
+                syn_div(&roots, 1, x)
+            }
+        })
+        .collect();
 
     let denominators: Vec<E> = numerators.iter().zip(xs).map(|(e, &x)| eval(e, x)).collect();
     let denominators = batch_inversion(&denominators);
